@@ -94,6 +94,11 @@ func registerResponder(s onEventer, seen *sync.Map) {
 		respond(uid, delayUs, mode, func() { ack(token(uid), bigPad) })
 	})
 	s.OnEvent("probe", func(n int, ack func(int)) { ack(n + 1) })
+	s.OnEvent("plain", func(uid int) {
+		if seen != nil {
+			seen.Store(uid, true)
+		}
+	})
 }
 
 // bigPad makes decoding a reply take about a millisecond or more: the window between "reply matched
@@ -502,6 +507,9 @@ func runOffline(run *vk.Run, natt int, transports []string) {
 	var mgrErr atomic.Value
 	m.OnError(func(err error) { mgrErr.CompareAndSwap(nil, err.Error()) })
 
+	// an event WITHOUT acknowledgement sits in the offline buffer, in front of the timed ones, when their timeouts fire
+	plainUID := nextUID()
+	sock.Emit("plain", plainUID)
 	// three buffered ack-carrying emissions with a short timeout, never sent
 	T := 60 * time.Millisecond
 	var ts []*trial
@@ -530,9 +538,14 @@ func runOffline(run *vk.Run, natt int, transports []string) {
 			run.Violation(vk.Violation{Sub: "ack-phantom-reply", Fields: map[string]any{"ctx": ctx}, What: "never-connected socket got a reply", Witness: map[string]any{"uid": t.uid}})
 		}
 	}
-	// now connect: the socket must be usable
-	sock.Connect()
+	// now connect: the socket must be usable (every call under a watchdog: a mutex left locked by the purge
+	// makes Connect / Emit block for good)
 	f := map[string]any{"ctx": ctx, "attachments": natt}
+	if !vk.Watchdog(20*time.Second, func() { sock.Connect() }) {
+		run.Violation(vk.Violation{Sub: "socket-unusable", Fields: f, What: "Connect() blocked for 20 s after offline ack timeouts",
+			Witness: map[string]any{"stacks": vk.DumpGoroutines("c03-offline-connect")}})
+		return
+	}
 	if !vk.WaitUntil(20*time.Second, func() bool { return connects.Load() > 0 }) {
 		run.Violation(vk.Violation{Sub: "socket-unusable", Fields: f,
 			What:    fmt.Sprintf("after %d offline ack timeouts (each packet buffered as %d frames) the client's connect handler never ran within 20 s of Connect()", len(ts), natt+1),
@@ -540,7 +553,11 @@ func runOffline(run *vk.Run, natt int, transports []string) {
 		return
 	}
 	probeDone := make(chan int, 1)
-	sock.Emit("probe", 41, func(n int) { probeDone <- n })
+	if !vk.Watchdog(20*time.Second, func() { sock.Emit("probe", 41, func(n int) { probeDone <- n }) }) {
+		run.Violation(vk.Violation{Sub: "socket-unusable", Fields: f, What: "Emit blocked for 20 s on a connected socket after offline ack timeouts (a mutex of the socket was left locked)",
+			Witness: map[string]any{"stacks": vk.DumpGoroutines("c03-offline-emit")}})
+		return
+	}
 	select {
 	case n := <-probeDone:
 		if n != 42 {
@@ -557,6 +574,10 @@ func runOffline(run *vk.Run, natt int, transports []string) {
 			run.Violation(vk.Violation{Sub: "purged-event-sent", Fields: f,
 				What: fmt.Sprintf("event uid %d whose ack had already timed out offline was still sent to the server after connect", t.uid), Witness: map[string]any{"uid": t.uid}})
 		}
+	}
+	if _, ok := seen.Load(plainUID); !ok {
+		run.Violation(vk.Violation{Sub: "buffered-event-lost", Fields: f,
+			What: "an event buffered offline without acknowledgement, in front of emits whose timeouts expired offline, was not delivered after connect", Witness: map[string]any{"uid": plainUID}})
 	}
 	if _, ok := seen.Load(keepUID); !ok {
 		run.Violation(vk.Violation{Sub: "buffered-event-lost", Fields: f,
@@ -630,10 +651,87 @@ func runMidFlight(run *vk.Run, n int) {
 	}
 }
 
+// mid-flight disconnect WITH reconnection: acknowledgements of the old connection are still outstanding (their
+// timers running) when the socket is connected again and new ack-carrying emits are made. The old timers must
+// only ever touch their own emissions: the new ones, answered in time, get their replies.
+func runMidFlightReconnect(run *vk.Run, n int) {
+	srv, err := rig.NewServer(nil, "")
+	if err != nil {
+		run.Inconclusive(err.Error())
+		return
+	}
+	defer srv.Close()
+	srv.IO.OnConnection(func(s sio.ServerSocket) { registerResponder(s, nil) })
+	px, err := proxy.New(srv.Addr)
+	if err != nil {
+		run.Inconclusive(err.Error())
+		return
+	}
+	defer px.Close()
+	mcfg := rig.ManagerConfig("websocket")
+	mcfg.ReconnectionDelay = rig.Dur(20 * time.Millisecond)
+	mcfg.ReconnectionDelayMax = rig.Dur(20 * time.Millisecond)
+	mcfg.RandomizationFactor = rig.F32(0)
+	m := sio.NewManager(px.URL("/socket.io/"), mcfg)
+	defer m.Close()
+	sock := m.Socket("/", nil)
+	var connects atomic.Int32
+	sock.OnConnect(func() { connects.Add(1) })
+	sock.Connect()
+	if !vk.WaitUntil(30*time.Second, func() bool { return connects.Load() >= 1 }) {
+		run.Inconclusive("mid-flight-reconnect: no connect")
+		return
+	}
+	var old, fresh []*trial
+	for i := 0; i < n; i++ {
+		t := &trial{uid: nextUID(), delay: never, timeout: 500 * time.Millisecond, natt: 2 * (i % 2), mode: 1, dir: "c2s", res: &result{}}
+		old = append(old, t)
+		issue(sock, t)
+	}
+	time.Sleep(10 * time.Millisecond)
+	px.CutAll()
+	if !vk.WaitUntil(20*time.Second, func() bool { return connects.Load() >= 2 }) {
+		run.Inconclusive("mid-flight-reconnect: no reconnect within 20 s")
+		return
+	}
+	// answered 700 ms after receipt: after the old timers (500 ms after THEIR emit) have fired, well before 5 s
+	for i := 0; i < n; i++ {
+		t := &trial{uid: nextUID(), delay: 700 * time.Millisecond, timeout: 5 * time.Second, natt: 2 * (i % 2), mode: 1, dir: "c2s", res: &result{}}
+		fresh = append(fresh, t)
+		issue(sock, t)
+	}
+	vk.WaitUntil(8*time.Second, func() bool {
+		for _, t := range append(append([]*trial(nil), old...), fresh...) {
+			if t.res.calls.Load() == 0 {
+				return false
+			}
+		}
+		return true
+	})
+	time.Sleep(50 * time.Millisecond)
+	for _, t := range old {
+		run.Eval(1)
+		judge(run, t, "midflight-reconnect-old")
+	}
+	for _, t := range fresh {
+		run.Eval(1)
+		judge(run, t, "midflight-reconnect-new")
+		t.res.mu.Lock()
+		err := t.res.err
+		t.res.mu.Unlock()
+		if t.res.calls.Load() >= 1 && err != nil {
+			run.Violation(vk.Violation{Sub: "ack-spurious-timeout", Fields: map[string]any{"dir": "c2s", "ctx": "midflight-reconnect-new", "binary": t.natt > 0},
+				What:    fmt.Sprintf("uid %d: emitted after a reconnect with a 5 s timeout and answered after 0.7 s, but the callback got %v (acknowledgements of the previous connection were still outstanding)", t.uid, err),
+				Witness: map[string]any{"uid": t.uid, "outstanding_from_previous_connection": len(old)}})
+		}
+	}
+	run.Distinct("midflight-reconnect")
+}
+
 func main() {
 	run := vk.Start("C03", "exploration")
 	run.Rule("ack trials: reply delay d in {0, T/2, T-2ms..T+2ms step 0.25ms (race band), 2T, never} for T in {20,100,400 ms} x {0,2 attachments} x responder calling ack {1x,2x,2x concurrently} x {c2s,s2c}, " +
-		"all trials of a direction outstanding at once; offline (never connected) timeouts with 0..3 attachments followed by connect + probe; link cut mid-flight; wire-level ACK count; " +
+		"all trials of a direction outstanding at once; offline (never connected) timeouts with 0..3 attachments followed by connect + probe; link cut mid-flight (without reconnection, and with reconnection followed by new ack-carrying emits while the old timers still run); wire-level ACK count; " +
 		"distinct = (context, direction, timeout, band, attachments, responder mode, outcome class)")
 	run.Assume("no outcome is prescribed inside the race band (reply and timer within 3 ms of each other); callbacks are counted, not timed",
 		"'exactly once with a timeout' is decided at timeout + 10 s")
@@ -662,6 +760,7 @@ func main() {
 	}
 	for rep := 0; rep < run.Pick(2, 10); rep++ {
 		runMidFlight(run, 24)
+		runMidFlightReconnect(run, 8)
 	}
 	if bin := os.Getenv("VERIF_RACE_BIN"); bin != "" && run.Thorough() {
 		if s, err := vk.RunSub(bin, "race", run, 20*time.Minute); err != nil {
